@@ -299,6 +299,23 @@ def classify(fn):
 #   ('tmpl', [binds], tmpl) | ('bad', why) | ('act', a)
 # tmpl: ('b', i) | ('n', K, [tmpl])
 ACTS = {"begin_directive": 1, "end_directive": 2, "begin_keywords": 3, "end_keywords": 4}
+# begin_keywords("directive") is action 3; begin_keywords of a standard's name is 11 + its place in this list (what is
+# pushed matters to the executable interpretation, Nom/Exec.v); any other argument: the translator does not vouch
+VERSIONS = ["1364-1995", "1364-2001", "1364-2001-noconfig", "1364-2005", "1800-2005", "1800-2009", "1800-2012", "1800-2017"]
+BEGIN_KEYWORDS_ACTS = [11 + i for i in range(len(VERSIONS))]
+
+
+def act_of(call):
+    """number of a state-action call expression ('call', ('name', f), args), or None"""
+    name, args = call[1][1], call[2]
+    if name != "begin_keywords":
+        return ACTS[name] if not args else None
+    if len(args) == 1 and args[0][0] == "str":
+        if args[0][1] == "directive":
+            return 3
+        if args[0][1] in VERSIONS:
+            return 11 + VERSIONS.index(args[0][1])
+    return None
 PRIM_SPAN = {"tag", "tag_no_case", "is_a", "is_not", "one_of", "none_of", "char", "take", "digit1", "multispace1",
              "space1", "alpha1", "alphanumeric1", "hex_digit1", "anychar", "line_ending", "not_line_ending"}
 WRAP = {"paren": ("(", ")", "Paren"), "bracket": ("[", "]", "Bracket"), "brace": ("{", "}", "Brace"),
@@ -489,8 +506,8 @@ class Norm:
         acts = []
         if body[0] == "block" and body[1]:
             for st in body[1]:
-                if st[0] == "do" and st[1][0] == "call" and st[1][1][0] == "name" and st[1][1][1] in ACTS:
-                    acts.append(ACTS[st[1][1][1]])
+                if st[0] == "do" and st[1][0] == "call" and st[1][1][0] == "name" and st[1][1][1] in ACTS and act_of(st[1]) is not None:
+                    acts.append(act_of(st[1]))
                 else:
                     return self.B("statement in closure block")
             body = body[2]
@@ -569,6 +586,10 @@ if __name__ == "__main__" and len(sys.argv) > 1 and sys.argv[1] == "norm":
 
 
 # ------------------------------------------------------------------ hand IR for the few functions outside the two shapes
+WS_ALL = ("lex", "is_a", repr([("str", " \t\r\n\x0c")]))
+WS_BLANK = ("lex", "is_a", repr([("str", " \t\x0c")]))
+
+
 def hand_overrides(nm):
     """name -> fexp (Python IR), valid for exactly the recorded source hash"""
     C = lambda n: ("call", n)
@@ -580,12 +601,13 @@ def hand_overrides(nm):
             t = ("n", wrap, [t])
         return ("tmpl", [("lexleaf", ("lex", prim))], [["a"]], t)
     return {
+        # the literals are those of the pinned source (the hash below is of that text)
         "white_space": ("if", 1,
-            ("tmpl", [("lexleaf", ("lex", "is_a:blank_or_newline"))], [["a"]], ("n", "WhiteSpace", [("b", 0, 0, 1)])),
-            ("alt", [("tmpl", [("lexleaf", ("lex", "is_a:blank"))], [["a"]], ("n", "WhiteSpace", [("b", 0, 0, 1)])),
-                     ("tmpl", [("lexleaf", ("lex", "is_a:blank_or_newline"))], [["a"]], ("n", "WhiteSpace", [("b", 0, 0, 1)])),
-                     ("tmpl", [("drop", ("lex", "char")), C("comment")], [["_"], ["a"]], ("n", "WhiteSpace", [("b", 1, 0, 1)])),
-                     ("tmpl", [("drop", ("lex", "char")), C("compiler_directive_without_resetall")], [["_"], ["a"]], ("n", "WhiteSpace", [("b", 1, 0, 1)]))])),
+            ("tmpl", [("lexleaf", WS_ALL)], [["a"]], ("n", "WhiteSpace", [("b", 0, 0, 1)])),
+            ("alt", [("tmpl", [("lexleaf", WS_BLANK)], [["a"]], ("n", "WhiteSpace", [("b", 0, 0, 1)])),
+                     ("tmpl", [("lexleaf", WS_ALL)], [["a"]], ("n", "WhiteSpace", [("b", 0, 0, 1)])),
+                     ("tmpl", [("drop", ("lex", "char", repr([("chr", "/")]))), C("comment")], [["_"], ["a"]], ("n", "WhiteSpace", [("b", 1, 0, 1)])),
+                     ("tmpl", [("drop", ("lex", "char", repr([("chr", "`")]))), C("compiler_directive_without_resetall")], [["_"], ["a"]], ("n", "WhiteSpace", [("b", 1, 0, 1)]))])),
         "one_line_comment": leafnode("Comment", "one_line_comment"),
         "block_comment": leafnode("Comment", "block_comment"),
         "macro_text": leafnode("MacroText", "macro_text"),
@@ -617,16 +639,16 @@ def classify2(fn):
     if not stmts and last and last[0] == "call" and last[2] == [("name", "s")]:
         return ("expr", last[1])
     def is_act(st):
-        return st[0] == "do" and st[1][0] == "call" and st[1][1][0] == "name" and st[1][1][1] in ACTS
+        return st[0] == "do" and st[1][0] == "call" and st[1][1][0] == "name" and st[1][1][1] in ACTS and act_of(st[1]) is not None
     # begin_directive(); let ret = EXPR(s); end_directive(); ret
     if len(stmts) == 3 and is_act(stmts[0]) and is_act(stmts[2]) and stmts[1][0] == "let" and stmts[1][1] == ("pvar", "ret") \
             and last == ("name", "ret") and stmts[1][2][0] == "call" and stmts[1][2][2] == [("name", "s")]:
-        return ("wrap", ACTS[stmts[0][1][1][1]], ACTS[stmts[2][1][1][1]], stmts[1][2][1])
+        return ("wrap", act_of(stmts[0][1]), act_of(stmts[2][1]), stmts[1][2][1])
     # binds with action statements in between
     items = []
     for st in stmts:
         if is_act(st):
-            items.append(("act", ACTS[st[1][1][1]]))
+            items.append(("act", act_of(st[1])))
         elif st[0] == "let" and st[1][0] == "ptuple" and len(st[1][1]) == 2 and st[1][1][0] == ("pvar", "s") \
                 and st[2][0] == "try" and st[2][1][0] == "call" and st[2][1][2] == [("name", "s")]:
             items.append(("bind", st[1][1][1], st[2][1][1]))
@@ -797,7 +819,8 @@ def generate():
     ksym, kkw = em.kind("Symbol"), em.kind("Keyword")
     wsi = em.index["white_space"]
     for (helper, text), idx in sorted(em.extra.items(), key=lambda kv: kv[1]):
-        tag = em.prim(("tag", text))
+        # the tag of keyword(t) is its own primitive: it stands behind the is_reserved_in_force(t) guard
+        tag = em.prim(("kwtag", text) if helper == "keyword" else ("tag", text))
         if helper == "symbol":
             b = "FTmpl [FLeaf (FPrim %d); FMany0 (C %d)] (TN %d [TB 0; TB 1])" % (tag, wsi, ksym)
         elif helper == "symbol_exact":
@@ -868,7 +891,7 @@ def generate():
                 if f["name"] in c and not neutral_py(e, c, invisible, inverse):
                     c.discard(f["name"]); ch = True
         return c
-    dir_cert = neutral_cert({3, 4}, {(1, 2)})
+    dir_cert = neutral_cert({3, 4} | set(BEGIN_KEYWORDS_ACTS), {(1, 2)})
     ver_cert = neutral_cert({1, 2}, {(3, 4)})
     text = ["(* GENERATED by gen/svx_grammar.py from /repo/sv-parser-parser/src -- do not edit *)",
             "From SV Require Import Peg.", "Local Open Scope nat_scope.",
@@ -902,6 +925,21 @@ def generate():
              "hash": hashlib.sha256(text.encode()).hexdigest()[:16], "index": em.index, "kinds": kinds,
              "nonnull": len(cert), "nullable": sorted(set(em.index) - cert)[:40],
              "dir_neutral": len(dir_cert), "ver_neutral": len(ver_cert), "not_dir_neutral": sorted(set(em.index) - dir_cert)[:20]}
+    # what each primitive is (for the executable interpretation of the grammar, gen/pegexec.py) and the call graph
+    facts["prims"] = [list(d) for d, _ in sorted(em.prims.items(), key=lambda kv: kv[1])]
+    def refs(e, acc):
+        if isinstance(e, (list, tuple)):
+            if len(e) >= 2 and e[0] == "call" and isinstance(e[1], str):
+                acc.add(("c", e[1]))
+            elif len(e) >= 3 and e[0] == "term":
+                acc.add(("t", e[1], e[2]))
+            elif len(e) >= 2 and e[0] == "lex":
+                acc.add(("p", em.prims.get(("lex",) + tuple(e[1:]))))
+            for x in e:
+                refs(x, acc)
+        return acc
+    facts["refs"] = {f["name"]: sorted(map(list, refs(e, set())), key=repr) for f, e in bodies}
+    facts["extra"] = [[h, t, i] for (h, t), i in sorted(em.extra.items(), key=lambda kv: kv[1])]
     return text, facts
 
 
